@@ -11,7 +11,7 @@ From Texel Require Import Chess.Types Chess.Position Chess.PositionSpec Chess.Po
   Chess.MoveGenProofs
   Chess.BitBoard Chess.MoveGen Chess.MoveGenWF Chess.Fen Chess.Spec
   RevGen.RevGen RevGen.RevFacts RevGen.RevAbs RevGen.RevRestore RevGen.RevValid RevGen.RevCand RevGen.RevRaw
-  RevGen.RevLegal RevGen.RevTheorems RevGen.RevSpec RevGen.RevPremise RevGen.RevPawn RevGen.RevCastle RevGen.RevComplete RevGen.RevCons RevGen.RevNoDup RevGen.RevSlide RevGen.RevConsPawn.
+  RevGen.RevLegal RevGen.RevTheorems RevGen.RevSpec RevGen.RevPremise RevGen.RevPawn RevGen.RevCastle RevGen.RevComplete RevGen.RevCons RevGen.RevNoDup RevGen.RevSlide RevGen.RevConsPawn RevGen.RevConsCastle.
 Import ListNotations.
 Local Open Scope N_scope.
 
@@ -167,17 +167,41 @@ Print Assumptions C15_legal_move_classes.
 
 (** * C15_consistent *)
 (** the full statement, over the FIDE rules: every reported un-move restores a position in which
-    the move is legal and from which it leads back to Q *)
+    the move is legal and from which it leads back to Q.  Q ranges over the domain [WFrev]: representation
+    invariant, well-formed (accepted by the FEN reader), obtainable piece counts, e.p. square stable under
+    the fix-up, and -- if Q has an e.p. square -- the origin square of the double step that set it is empty.
+    The last condition is needed: readFEN does not look at that square, genMoves then still lists the double
+    step, and un-making it overwrites the piece standing there (recorded in the first report; positions
+    reached by play satisfy it) *)
 Definition C15_consistent_statement : Prop :=
   forall zk, emptyKeysZero zk -> forall q incl um,
-    Consistent zk q -> WF q -> epSquare (fixupEPSquare zk q) = epSquare q ->
+    WFrev zk q ->
     In um (genMoves zk q incl) ->
     let prev := unMakeMove zk q (um_move um) (um_ui um) in
     legal_spec (abs prev) (um_move um) /\ abs (successor zk prev (um_move um)) = abs q.
+Theorem C15_consistent : C15_consistent_statement.
+Proof. exact (fun zk EKZ q incl um Hrev Hin => proj2 (consistent_all zk EKZ q incl um Hrev Hin)). Qed.
+Print Assumptions C15_consistent.
 
-(** proved: what knownInvalid guarantees for every reported un-move (the part of consistency that
-    is decided by the filter); legality of the move in the restored position and the round trip of
-    the board are compared on the real code and against the Spec by the check, not proved *)
+(** ... and the restored position satisfies the representation invariant *)
+Theorem C15_consistent_invariant : forall zk, emptyKeysZero zk -> forall q incl um,
+  WFrev zk q -> In um (genMoves zk q incl) -> Consistent zk (unMakeMove zk q (um_move um) (um_ui um)).
+Proof. exact (fun zk EKZ q incl um Hrev Hin => proj1 (consistent_all zk EKZ q incl um Hrev Hin)). Qed.
+Print Assumptions C15_consistent_invariant.
+
+(** un-castlings alone (Q needs the invariant and well-formedness only) *)
+Theorem C15_consistent_castling : forall zk, emptyKeysZero zk -> forall q, Consistent zk q -> WF q -> forall incl um,
+  In um (genMoves zk q incl) ->
+  mpromote (um_move um) = EMPTY ->
+  isKingPiece (nthP (squares q) (mto (um_move um))) = true ->
+  mto (um_move um) = mfrom (um_move um) + 2 \/ mto (um_move um) + 2 = mfrom (um_move um) ->
+  let prev := unMakeMove zk q (um_move um) (um_ui um) in
+  Consistent zk prev /\ legal_spec (abs prev) (um_move um) /\ abs (successor zk prev (um_move um)) = abs q.
+Proof. exact consistent_castle. Qed.
+Print Assumptions C15_consistent_castling.
+
+(** what knownInvalid guarantees for every reported un-move (the part of consistency that is decided by
+    the filter, for every position, no domain hypothesis) *)
 Theorem C15_consistent_partial : forall zk pos incl um,
   In um (genMoves zk pos incl) ->
   let prev := unMakeMove zk pos (um_move um) (um_ui um) in
